@@ -508,3 +508,67 @@ func c07VisitsN(c *Ctx, g *load.G, kind string, nv *ast.FuncDecl, need []string)
 		r.Ok("C07-v", construct, "", w, fmt.Sprintf("%d operands visited on every path", n))
 	}
 }
+
+// everyRuleVisited (C07-c): the nullable pass visits every rule. NullableVisit follows references only as far as the
+// answer needs (a sequence stops at its first non-nullable item, a choice at its first nullable alternative), so a walk
+// from the entry rule leaves rules unvisited whose references then keep Nullable == false: the first-position graph
+// loses the edges behind them and left recursion through a nullable rule reference goes undetected.
+func everyRuleVisited(c *Ctx, g *load.G, rule string) {
+	r := c.R
+	bp := g.Pkg("builder")
+	fd := load.FuncDecl(bp, "", "ComputeNullables")
+	if fd == nil {
+		r.Fatal("anchor builder.ComputeNullables not found")
+		return
+	}
+	P := firstParam(fd)
+	paths := c.pkgNorm("builder").without("NullableVisit").normPaths(fd)
+	var bad []string
+	ok := false
+	for _, p := range paths {
+		// key lists: a numbered local filled only with keys of P
+		keysOf := map[string]bool{"slices.Sorted(maps.Keys(" + P + "))": true, "slices.Collect(maps.Keys(" + P + "))": true}
+		for i, e := range p {
+			if e.Kind == "loop" && e.Text == "range "+P {
+				_, hi := loopSpan(p[i:], e.Text)
+				for _, b := range p[i : i+hi] {
+					if b.Kind == "set" {
+						if k := strings.Index(b.Text, "=append("); k > 0 && strings.HasSuffix(b.Text, ",#1)") {
+							keysOf[b.Text[:k]] = true
+						}
+					}
+				}
+			}
+		}
+		for i, e := range p {
+			if e.Kind != "loop" || !strings.HasPrefix(e.Text, "range ") {
+				continue
+			}
+			over := strings.TrimPrefix(e.Text, "range ")
+			key := ""
+			switch {
+			case over == P:
+				key = "#1"
+			case keysOf[over]:
+				key = over + "[#1]"
+			default:
+				continue
+			}
+			_, hi := loopSpan(p[i:], e.Text)
+			want1, want2 := P+"["+key+"].NullableVisit("+P+")", P+"[#1]"
+			_ = want2
+			for _, b := range p[i+1 : i+hi] {
+				if b.Kind == "+" {
+					break // a visit under a condition does not reach every rule
+				}
+				if (b.Kind == "call" || b.Kind == "ccall") && b.Text == want1 {
+					ok = true
+				}
+			}
+		}
+	}
+	if !ok {
+		bad = append(bad, "no loop over all rules (the rule map, or a list holding exactly its keys) calls NullableVisit on each of them unconditionally: rules that the walk from another rule does not reach keep unset Nullable flags on their references")
+	}
+	r.Check(len(bad) == 0, rule, "G.builder.ComputeNullables:every-rule-visited", "", g.Where(fd.Pos()), "NullableVisit is called on every rule of the grammar", strings.Join(bad, "; "))
+}
